@@ -299,3 +299,323 @@ def explore(prog, fn, sigma, other, spec_init, spec_step, entry_heads, codes, ma
         # call values are consumed inside their block
         work.append((nxt, 0, envt2, (), head, sst, past, trace))
     return res
+
+
+# --------------------------------------------------------------------------
+# second generation: inlines the routine's own helpers that touch the cursor
+# (a call stack is part of the configuration), evaluates pure helpers on
+# constants, forks on conditions that depend on object state only.
+
+def touches_tape(prog, fn, memo=None, depth=0):
+    memo = {} if memo is None else memo
+    if fn.key in memo:
+        return memo[fn.key]
+    memo[fn.key] = False
+    r = False
+    for i, st in fn.calls():
+        nm = st["callee"]["q"].split("::")[-1]
+        if "JsonDeserializer" in st["callee"]["q"] and nm in ("current", "move"):
+            r = True
+            break
+        cal = prog.fns.get(st["callee"]["key"])
+        if cal is not None and depth < 6 and cal.cls.endswith("JsonDeserializer") and touches_tape(prog, cal, memo, depth + 1):
+            r = True
+            break
+    memo[fn.key] = r
+    return r
+
+
+def relevant_vars(fn):
+    """Locals/parameters whose value can influence control flow or the
+    returned code (fixed point over assignments); all others are data."""
+    R = set()
+
+    def refs(i):
+        return {fn.s(x)["ref"]["d"] for x in fn.walk(i) if fn.s(x)["k"] == "DeclRefExpr" and fn.s(x)["ref"]["k"] in ("local", "parm")}
+    for b in fn.cfg["blocks"]:
+        if "cond" in b:
+            R |= refs(b["cond"])
+    for i in fn.walk():
+        st = fn.s(i)
+        if st["k"] == "ReturnStmt" or st["k"] == "ConditionalOperator":
+            R |= refs(i)
+        if st["k"] in P.CALL_KINDS:
+            for a in st.get("args", []):
+                R |= refs(a)
+    changed = True
+    while changed:
+        changed = False
+        for i in fn.walk():
+            st = fn.s(i)
+            tgt = src = None
+            if st["k"] in ("BinaryOperator", "CompoundAssignOperator") and st["op"].endswith("=") and st["op"] not in ("==", "!=", "<=", ">="):
+                l = fn.s(fn.strip(st["c"][0], casts=True))
+                if l["k"] == "DeclRefExpr":
+                    tgt, src = l["ref"]["d"], st["c"][1]
+            if st["k"] == "DeclStmt":
+                for d in st["decls"]:
+                    if "init" in d and d["d"] in R:
+                        new = refs(d["init"]) - R
+                        if new:
+                            R |= new
+                            changed = True
+            if tgt is not None and tgt in R:
+                new = refs(src) - R
+                if new:
+                    R |= new
+                    changed = True
+    return R
+
+
+def explore2(prog, fn, alphabet, names, spec_init, spec_step, entry_heads, codes, max_configs=400000, pure_hooks=None):
+    it = absint.Interp(prog)
+    relmemo = {}
+
+    def rel(f_):
+        if f_.key not in relmemo:
+            relmemo[f_.key] = relevant_vars(f_)
+        return relmemo[f_.key]
+    res = Result()
+    byval = {v: n for n, v in codes.items()}
+    tmemo = {}
+    import collections
+
+    def name(ch):
+        if ch in names:
+            return names[ch]
+        if ch == 0:
+            return "NUL"
+        return repr(chr(ch)).strip("'") if 32 < ch < 127 else {32: "SP", 9: "TAB", 10: "LF", 13: "CR"}.get(ch, "\\x%02x" % (ch % 256))
+
+    def freeze(path):
+        return (tuple(sorted(path.env.items(), key=lambda kv: str(kv[0]))), tuple(sorted(path.callval.items())))
+
+    start = []
+    for h in entry_heads:
+        start.append((((fn.key, fn.cfg["entry"], 0, (), (), None),), h, ("run", spec_init), False, (name(h),)))
+    seen = set()
+    work = collections.deque(start)
+    forks = 0
+    while work:
+        frames, head, sst, past, trace = work.popleft()
+        key = (frames, head, sst, past)
+        if key in seen:
+            continue
+        seen.add(key)
+        res.configs += 1
+        if res.configs > max_configs:
+            res.unknown.append("configuration budget exceeded")
+            return res
+        fkey, b, idx, envt, cvt, retto = frames[-1]
+        f = prog.fns[fkey]
+        blocks = f.blocks()
+        blk = blocks[b]
+        path = absint.Path()
+        path.env = dict(envt)
+        path.callval = dict(cvt)
+        el = blk["el"]
+        stopped = False
+
+        def push(nframes, h=head, s=sst, p=past, t=trace):
+            work.append((nframes, h, s, p, t))
+
+        while idx < len(el):
+            e = el[idx]
+            idx += 1
+            if not isinstance(e, int) or e < 0:
+                continue
+            st = f.s(e)
+            k = st["k"]
+            if k in P.CALL_KINDS and "callee" in st:
+                q = st["callee"]["q"]
+                nm = q.split("::")[-1]
+                is_jd = "JsonDeserializer" in q
+                if is_jd and nm == "current":
+                    if past:
+                        res.mismatch.append(("the routine looks at the input again after moving past its end", trace))
+                        stopped = True
+                        break
+                    path.callval[e] = C(head)
+                elif is_jd and nm == "move":
+                    res.moves += 1
+                    if sst[0] == "stopped":
+                        if head != 0:
+                            res.mismatch.append(("consumes %s after the point where the scan must stop with %s" %
+                                                 (name(head), "/".join(sorted(sst[1]))), trace))
+                            stopped = True
+                            break
+                        nsst = sst
+                    else:
+                        r = spec_step(sst[1], head)
+                        if head == 0:
+                            if r[0] != "stop":
+                                res.mismatch.append(("reference automaton consumes the terminator", trace))
+                                stopped = True
+                                break
+                            nsst = ("stopped", frozenset(r[1]))
+                        elif r[0] == "consume":
+                            nsst = ("run", r[1])
+                        elif r[0] == "consume-stop":
+                            nsst = ("stopped", frozenset(r[1]))
+                        else:
+                            res.mismatch.append(("consumes %s where the scan must stop with %s and leave it" %
+                                                 (name(head), "/".join(sorted(r[1]))), trace))
+                            stopped = True
+                            break
+                    envt2, cvt2 = freeze(path)
+                    nf = frames[:-1] + ((fkey, b, idx, envt2, cvt2, retto),)
+                    if head == 0:
+                        push(nf, 0, nsst, True, trace)
+                    else:
+                        for h2 in alphabet:
+                            push(nf, h2, nsst, False, trace + (name(h2),) if len(trace) < 14 else trace)
+                    stopped = True
+                    break
+                else:
+                    cal = prog.fns.get(st["callee"]["key"])
+                    if cal is not None and cal.cfg is not None and cal.cls.endswith("JsonDeserializer") and touches_tape(prog, cal, tmemo):
+                        if len(frames) > 6:
+                            res.unknown.append("inlining depth exceeded at %s" % q)
+                            stopped = True
+                            break
+                        env2 = {}
+                        for prm, a in zip(cal.params, st.get("args", [])):
+                            env2[prm["d"]] = it._point(it.ev(f, a, path), path) if absint.type_range(prm.get("tk")) and "&" not in prm["t"] else UNK
+                        envt2, cvt2 = freeze(path)
+                        caller = (fkey, b, idx, envt2, cvt2, retto)
+                        callee = (cal.key, cal.cfg["entry"], 0, tuple(sorted(env2.items(), key=lambda kv: str(kv[0]))), (), e)
+                        push(frames[:-1] + (caller, callee))
+                        stopped = True
+                        break
+                    if pure_hooks and nm in pure_hooks:
+                        args = [it._point(it.ev(f, a, path), path) for a in st.get("args", [])]
+                        if all(absint.is_c(a) for a in args):
+                            path.callval[e] = C(pure_hooks[nm](*[a[1] for a in args]))
+                    elif cal is not None and cal.cfg is not None:
+                        # a pure helper on constants
+                        args = [it._point(it.ev(f, a, path), path) for a in st.get("args", [])]
+                        if args and all(absint.is_c(a) for a in args) and len(args) == len(cal.params):
+                            sub = absint.Interp(prog, inline=("",))
+                            sub.max_depth = 4
+                            try:
+                                ps = sub.run(cal, {prm["d"]: a for prm, a in zip(cal.params, args)})
+                            except Exception:
+                                ps = []
+                            rets = set(p_.ret for p_ in ps if p_.end == "exit")
+                            if len(rets) == 1 and absint.is_c(list(rets)[0]):
+                                path.callval[e] = list(rets)[0]
+            elif k == "DeclStmt":
+                for d in st["decls"]:
+                    path.env[d["d"]] = it.ev(f, d["init"], path) if "init" in d and d["d"] in rel(f) else UNK
+            elif k in ("BinaryOperator", "CompoundAssignOperator") and st["op"] in ("=", "+=", "-=", "|=", "&="):
+                l = f.s(f.strip(st["c"][0], casts=True))
+                if l["k"] == "DeclRefExpr" and l["ref"]["k"] in ("local", "parm"):
+                    path.env[l["ref"]["d"]] = it.ev(f, st["c"][1], path) if st["op"] == "=" and l["ref"]["d"] in rel(f) else UNK
+            elif k == "UnaryOperator" and st["op"] in ("++", "--"):
+                l = f.s(f.strip(st["c"][0], casts=True))
+                if l["k"] == "DeclRefExpr":
+                    v = path.env.get(l["ref"]["d"], UNK)
+                    if absint.is_c(v):
+                        path.env[l["ref"]["d"]] = C(absint.wrap(v[1] + (1 if st["op"] == "++" else -1), l.get("tk")))
+                    else:
+                        path.env[l["ref"]["d"]] = UNK
+            elif k == "ReturnStmt":
+                ch = [c for c in st["c"] if c is not None and c >= 0]
+                vals = []
+                if ch:
+                    r0 = f.s(f.strip(ch[0], casts=True))
+                    if r0["k"] == "ConditionalOperator":
+                        cv = it._point(it.ev(f, r0["c"][0], path), path)
+                        if absint.is_c(cv):
+                            vals = [it.ev(f, r0["c"][1] if cv[1] else r0["c"][2], path)]
+                        else:
+                            vals = [it.ev(f, r0["c"][1], path), it.ev(f, r0["c"][2], path)]
+                    else:
+                        vals = [it.ev(f, ch[0], path)]
+                vals = [it._point(v, path) for v in vals]
+                if len(frames) > 1:
+                    # return into the caller
+                    cf = frames[-2]
+                    for v in (vals or [UNK]):
+                        ccv = dict(cf[4])
+                        if retto is not None:
+                            ccv[retto] = v
+                        push(frames[:-2] + ((cf[0], cf[1], cf[2], cf[3], tuple(sorted(ccv.items())), cf[5]),))
+                    stopped = True
+                    break
+                res.returns += 1
+                got = set()
+                for v in vals:
+                    got.add(byval[v[1]] if absint.is_c(v) and v[1] in byval else "?")
+                if "?" in got:
+                    res.unknown.append("return value not a constant error code at %s" % f.loc(e))
+                    stopped = True
+                    break
+                if sst[0] == "stopped":
+                    want = sst[1]
+                else:
+                    r = spec_step(sst[1], head)
+                    if r[0] != "stop":
+                        res.mismatch.append(("returns %s with %s under the cursor, where the scan must go on (%s)" %
+                                             ("/".join(sorted(got)), name(head), r[0]), trace))
+                        stopped = True
+                        break
+                    want = frozenset(r[1])
+                if not got <= want:
+                    res.mismatch.append(("returns %s where %s is required" % ("/".join(sorted(got)), "/".join(sorted(want))), trace))
+                stopped = True
+                break
+        if stopped:
+            continue
+        if blk.get("noreturn"):
+            continue
+        succ = blk["succ"]
+        if not succ or b == f.cfg["exit"]:
+            if len(frames) > 1:
+                cf = frames[-2]
+                push(frames[:-2] + (cf,))      # void helper fell off its end
+            continue
+        nxts = []
+        if blk.get("termk") == "SwitchStmt" and "cond" in blk:
+            v = it._point(it.ev(f, blk["cond"], path), path)
+            if not absint.is_c(v):
+                res.unknown.append("switch condition does not fold at %s" % f.loc(blk["cond"]))
+                continue
+            default = None
+            nxt = None
+            for s in succ:
+                if s < 0:
+                    continue
+                lb = blocks[s].get("label")
+                ls = f.s(lb) if lb is not None else None
+                if ls is not None and ls["k"] == "CaseStmt":
+                    if int(ls["lo"]) <= v[1] <= int(ls.get("hi", ls["lo"])):
+                        nxt = s
+                        break
+                else:
+                    default = s
+            nxt = default if nxt is None else nxt
+            if nxt is not None:
+                nxts = [nxt]
+        elif "cond" in blk and len(succ) == 2:
+            v = it._point(it.ev(f, blk["cond"], path), path)
+            if absint.is_c(v):
+                nxts = [succ[0] if v[1] else succ[1]]
+            else:
+                cn = [f.s(x) for x in f.walk(blk["cond"])]
+                object_state = any(x["k"] == "MemberExpr" and f.s(x["c"][0])["k"] == "CXXThisExpr" and x.get("m", "").endswith("_") and
+                                   "function type" not in x.get("t", "") for x in cn if x["c"]) or \
+                    any(x["k"] in P.CALL_KINDS and "JsonDeserializer" not in x.get("callee", {}).get("q", "") for x in cn)
+                if not object_state:
+                    res.unknown.append("condition does not fold at %s: %s" % (f.loc(blk["cond"]), f.text(blk["cond"])[:60]))
+                    continue
+                forks += 1
+                nxts = [s for s in succ]
+        else:
+            nxts = [s for s in succ if s >= 0][:1]
+        envt2, _ = freeze(path)
+        for s in nxts:
+            if s is not None and s >= 0:
+                push(frames[:-1] + ((fkey, s, 0, envt2, (), retto),))
+    res.forks = forks
+    return res
